@@ -12,6 +12,7 @@ def dispatch (j : Json) : Except String Json := do
   | "range" => handleRange op j
   | "cutoff" => handleCutoff op j
   | "expr" => handleExpr op j
+  | "lang" => handleLang op j
   | _ => throw s!"unknown model {m}"
 
 def step (line : String) : String :=
